@@ -21,6 +21,7 @@ var c19Stmts = []string{
 	"---@class C\nlocal c = {}", "do local a = 1 end", "if a then b = 1 end",
 	"function outer(p)\n  if p then\n  end\n  if not p then\n  end\nend", "do\n  local function hidden1() end\n  hidden1()\nend",
 	"function outer2()\n  local function hidden2() end\n  return hidden2\nend", "if a then\n  function gnested() end\nend",
+	"local function lo(p)\n  if p then\n    p = 1\n  end\n  while p do\n    p = nil\n  end\n  return p\nend",
 }
 
 type c19Decl struct {
